@@ -483,7 +483,7 @@ __CPROVER_ensures(RQ_COMMON_POST(connp))
  * method hands over to normal request completion, anything else puts BOTH directions into tunnel mode */
 htp_status_t contract_htp_connp_REQ_CONNECT_PROBE_DATA(htp_connp_t *connp)
 __CPROVER_requires(RQ_PRE(connp, htp_connp_REQ_CONNECT_PROBE_DATA) && g_clear_n == 0 && g_txstate_n == 0 && g_consol_n == 0)
-__CPROVER_assigns(g_clear_n, g_consol_n, g_txstate_n, g_txstate_which, __CPROVER_object_whole(connp), __CPROVER_object_whole(connp->in_tx))
+__CPROVER_assigns(g_clear_n, g_consol_n, g_consol_len, g_txstate_n, g_txstate_which, __CPROVER_object_whole(connp), __CPROVER_object_whole(connp->in_tx))
 __CPROVER_frees(connp->in_tx)
 __CPROVER_ensures(g_clear_n == 0)
 __CPROVER_ensures((__CPROVER_return_value == HTP_OK && g_txstate_n == 0) ==> (connp->in_status == HTP_STREAM_TUNNEL && connp->out_status == HTP_STREAM_TUNNEL && connp->in_state == O(connp->in_state)))
